@@ -152,6 +152,12 @@ func (s Snapshot) Digest() string {
 	return hex.EncodeToString(h.Sum(nil))
 }
 
+// HashBytes is the content hash used in snapshots.
+func HashBytes(b []byte) string {
+	h := sha256.Sum256(b)
+	return hex.EncodeToString(h[:])
+}
+
 // TreeDigest is a canonical hash of a materialisable tree.
 func TreeDigest(t Tree) string {
 	h := sha256.New()
